@@ -122,6 +122,7 @@ class C25(Check):
         reg("u.o", "object")
 
         first_obj = next((i for i, p in enumerate(provs) if p["kind"] == "obj"), None)
+        shared_member_cases = []
         cmd_items = []     # (text args list, via)
         rsp_args = []
         for i, p in enumerate(provs):
@@ -144,15 +145,26 @@ class C25(Check):
                 members = [f"mem/tm{i}_0.o", f"mem/tm{i}_1.o"]
                 tools.asm(fn_obj(f"p{i}"), members[0], cwd=w)
                 tools.asm(fn_obj(f"q{i}"), members[1], cwd=w)
-                if p["share"] and first_obj is not None and first_obj < i:
-                    members.append(f"o{first_obj}.o")
+                spelling = p["spell"]
+                if p["share"]:
+                    # Share a member with an earlier thin archive or with a command-line object, using
+                    # the same spelling, so that the very same path string is loaded twice.
+                    prev_thin = next((j for j in range(i) if provs[j]["kind"] == "thin"), None)
+                    if prev_thin is not None:
+                        members.append(f"mem/tm{prev_thin}_0.o")
+                        spelling = provs[prev_thin]["spell"]
+                    elif first_obj is not None and first_obj < i:
+                        members.append(f"o{first_obj}.o")
+                        spelling = provs[first_obj]["spell"]
                 path = f"th{i}.a"
                 tools.ar(path, members, cwd=w, thin=True)
                 reg(path, "thin-archive")
                 for m in members:
                     if os.path.realpath(os.path.join(w, m)) not in kind_of:
                         reg(m, "thin-member")
-                arg = [spell(path, p["spell"], w)]
+                if len(members) > 2:
+                    shared_member_cases.append(i)
+                arg = [spell(path, spelling, w)]
             elif k == "shared":
                 os.makedirs(os.path.join(w, f"so{i}"))
                 tools.asm(fn_obj(f"p{i}"), f"so{i}/s.o", cwd=w)
@@ -313,6 +325,8 @@ class C25(Check):
             info["classes"].append(f"via:{p['via']}")
         if any(p["twice"] for p in provs):
             info["classes"].append("named-twice")
+        if shared_member_cases:
+            info["classes"].append("same-path-loaded-twice(thin member shared)")
         n_listed_twice_alias = len(prereqs) - len(listed)
         if n_listed_twice_alias:
             info["classes"].append("alias-spellings-listed")
